@@ -151,6 +151,8 @@ fn transmit_after(a: u64, b: u64) {
     // the ACK frame names exactly the received numbers: largest = max(a, b)
     assert!(ctx.last_frame[0] == 0x02 || ctx.last_frame[0] == 0x03);
     assert!(ctx.last_frame[1] as u64 == core::cmp::max(a, b));
+    kani::cover!(!ctx.eliciting, "ACK carried by a packet that is not ack-eliciting");
+    kani::cover!(ctx.eliciting, "ACK carried by an ack-eliciting packet");
     mgr.on_transmit_complete(&mut ctx);
     assert!(mgr.largest_received_packet_number_acked() == pn(core::cmp::max(a, b)));
     assert!(!mgr.ack_delay_timer.is_armed());
